@@ -408,7 +408,8 @@ theorem scanInLineAt_account (C : Classes) {z : Z} {a rest : Bytes} (hz : z.afte
   unfold scanAccount
   rw [scanAccountF_over (c :: t) _ z z rest hz (by simp [hz]) ha hstop]
   simp only [reduceCtorEq, if_false]
-  rw [between_over, mkTok_over]
+  rw [between_over, ← mkTok_over]
+  rfl
 
 /-! ### commodity, text -/
 
@@ -488,6 +489,26 @@ theorem trimSpace_single (c : UInt8) (hc : c < 0x80) (hcs : asciiSpace c = false
   rw [if_neg hc']
   simp [hcs]
 
+theorem ascii_nonspace_rune : ∀ c : UInt8, (!(decide (c < 0x80)) || asciiSpace c || !isSpaceRune c.toNat) = true :=
+  forall_uint8 _ (by decide +kernel)
+
+/-- `strings.TrimRightFunc(s, unicode.IsSpace)` leaves a string alone that ends with a non-blank
+    ASCII byte -/
+theorem trimRightFunc_id (m : Bytes) (d : UInt8) (hd : d < 0x80) (hds : asciiSpace d = false) :
+    trimRightFunc (m ++ [d]) = m ++ [d] := by
+  have hsp : isSpaceRune d.toNat = false := by
+    have := ascii_nonspace_rune d
+    simpa [hd, hds] using this
+  have hd' : ¬ d ≥ 0x80 := by simpa using hd
+  have hrev : (m ++ [d]).reverse = d :: m.reverse := by simp
+  have hl : (m ++ [d]).length = m.length + 1 := by simp
+  have hget : (m ++ [d]).getD m.length 0 = d := by simp [List.getD]
+  unfold trimRightFunc
+  rw [hrev, hl]
+  simp only [lastIndexNotSpaceF, decodeLastRuneRev, hd, if_true, hsp, Bool.not_false, List.drop_succ_cons,
+    List.drop_zero, List.length_reverse, hget, if_neg hd']
+  rw [← hl, List.take_length]
+
 /-- **Text.**  A lower-case word `w` followed by more text `r` (no CR) up to a line end, `;` or `|`:
     one Text token for `w ++ r` (the lexer decides on the first word: it is neither a commodity
     for `C` nor, with no colon ahead, an account). -/
@@ -495,7 +516,8 @@ theorem scanInLineAt_text (C : Classes) {z : Z} {w r rest : Bytes} (hz : z.after
     (hne : w ≠ []) (hw : ∀ c ∈ w, isLower c = true)
     (hC : ∀ c ∈ w, C.isUpper c.toNat = false ∧ C.isDigit c.toNat = false)
     (hr : ∀ c ∈ r, textByte c = true ∧ c < 0x80) (hrs : Stops alnum (r ++ rest)) (hstop : StopsL textP rest)
-    (hacc : looksLikeAccount z.after = false) (htrim : trimSpace (w ++ r) = w ++ r) :
+    (hacc : looksLikeAccount z.after = false) (htrim : trimSpace (w ++ r) = w ++ r)
+    (htrimR : trimRightFunc (w ++ r) = w ++ r) :
     scanInLineAt C z = (tokAt .text (w ++ r) z (w ++ r).length, z.over (w ++ r) rest) := by
   obtain ⟨c, t, rfl⟩ := List.exists_cons_of_ne_nil hne
   have hlow : ∀ x ∈ c :: t, isLetter x = true ∧ x < 0x80 ∧ textByte x = true ∧
@@ -534,7 +556,14 @@ theorem scanInLineAt_text (C : Classes) {z : Z} {w r rest : Bytes} (hz : z.after
       exact ⟨this.1, (hr x hx).2, this.2⟩
   unfold scanCommodityOrText
   simp only [h1, h2, between_over, h3, h4, Bool.false_and, Bool.and_false, Bool.false_eq_true, if_false]
+  have hasc : ∀ x ∈ c :: t ++ r, x < 0x80 := by
+    intro x hx
+    rcases List.mem_append.mp hx with hx | hx
+    · exact (hlow x hx).2.1
+    · exact (hr x hx).2
   unfold scanText
-  simp only [h5, between_over, htrim, mkTok_over]
+  simp only [h5, between_over, htrim, textStop, htrimR, runes_ascii _ hasc, List.length_map]
+  rw [if_neg (by simp), ← mkTok_over]
+  simp [mkTok, mkTokAt, over_position]
 
 end HL.Lex
